@@ -1,9 +1,10 @@
 (* C07 - Headers commit to the whole state and chain together; contents are provable.
    Pinned statements only; proofs in STF/Proofs/Block.v (state level) and Merkle/Smt.v (sparse Merkle tree of
    novasmt over an abstract hash, tied to the real crate by the `merkle` stream: roots and proofs of small real
-   trees are recomputed by the model from tables of the real hash evaluations).  The dense transaction tree
-   under TIP-908 is exercised on the real crate only (every sealed Custom08 state of the stf stream). *)
-From MelVerif Require Import STF.Model STF.Proofs.Block Merkle.Smt.
+   trees are recomputed by the model from tables of the real hash evaluations) and Merkle/Dense.v (the dense
+   tree of novasmt::dense used for transactions under TIP-908, reduced to the same tree; tied by the dense
+   cases of the `merkle` stream: real roots and proofs of 0..33 blocks recomputed by the model). *)
+From MelVerif Require Import STF.Model STF.Proofs.Block Merkle.Smt Merkle.Dense.
 Open Scope N_scope.
 
 (* the header records the scalars of the state, the five roots, and the hash of the parent header *)
@@ -82,3 +83,36 @@ Theorem C07_sparse_root : forall H zero (hash_data : list N -> H) (hash_node : H
   sroot H zero hash_data hash_node d l = root H hash_data hash_node d (fun k => lookup k l).
 Proof. exact sroot_is_root. Qed.
 Print Assumptions C07_sparse_root.
+
+(* ---- the dense tree (transactions under TIP-908): leaves are the block hashes padded with the zero hash to
+   2^k, levels are built by hashing adjacent pairs.  Its root is the root of the perfect tree whose leaf at index
+   i holds block i - so the root is a function of the blocks alone and C07_root_commits_to_every_entry applies *)
+Theorem C07_dense_root_is_tree_root : forall H zero (hash_data : list N -> H) (hash_node : H -> H -> H),
+  hash_data [] = zero ->
+  forall k blocks, (length blocks <= 2 ^ k)%nat ->
+  dense_root H zero hash_data hash_node k blocks
+  = root H hash_data hash_node k (leaf_at (blocks ++ repeat [] (2 ^ k - length blocks))).
+Proof. exact dense_root_is_root. Qed.
+Print Assumptions C07_dense_root_is_tree_root.
+
+(* every block has a proof that verify_dense accepts *)
+Theorem C07_dense_proofs_verify : forall H zero (hash_data : list N -> H) (hash_node : H -> H -> H),
+  hash_data [] = zero ->
+  forall k blocks i, (length blocks <= 2 ^ k)%nat -> (i < 2 ^ k)%nat ->
+  dense_climb H hash_node (dense_proof H hash_data hash_node k blocks i) i
+    (hash_data (nth i (blocks ++ repeat [] (2 ^ k - length blocks)) []))
+  = dense_root H zero hash_data hash_node k blocks.
+Proof. exact dense_proof_verifies. Qed.
+Print Assumptions C07_dense_proofs_verify.
+
+(* and for a collision-free hash an accepted proof of the right length determines the block *)
+Theorem C07_dense_proofs_are_sound : forall H zero (hash_data : list N -> H) (hash_node : H -> H -> H),
+  hash_data [] = zero ->
+  forall k blocks i (p : list H) v,
+  (forall a b a' b', hash_node a b = hash_node a' b' -> a = a' /\ b = b') ->
+  (forall x y, hash_data x = hash_data y -> x = y) ->
+  (length blocks <= 2 ^ k)%nat -> (i < 2 ^ k)%nat -> length p = k ->
+  dense_climb H hash_node p i (hash_data v) = dense_root H zero hash_data hash_node k blocks ->
+  v = nth i (blocks ++ repeat [] (2 ^ k - length blocks)) [].
+Proof. exact dense_proof_sound. Qed.
+Print Assumptions C07_dense_proofs_are_sound.
